@@ -86,7 +86,7 @@ type savedBlock struct {
 }
 
 func runRace(c *core.Ctx) {
-	goshim.Seed(c.Rng.Bytes(16))
+	shimSeed := c.Rng.Bytes(16)
 	pc := genPoolCfg(c.Rng)
 	pc.UnderpaidAin = false
 	w, err := newWorld(c, pc)
@@ -99,6 +99,7 @@ func runRace(c *core.Ctx) {
 		return
 	}
 	defer w.close()
+	goshim.Seed(shimSeed) // after the (cached, separately seeded) warm chain: a replayed case draws the same shim randomness
 	G := c.Rng.Range(4, 16)
 	rounds := c.Rng.Range(3, 4)
 	// scheduler pressure: vary the parallelism per case (few Ps = long uninterrupted stretches, many = true parallelism)
